@@ -142,7 +142,7 @@ func c16WireRun(t *testing.T, c c06Case) (steps int, log string, out [][2]string
 func TestVerifC16Wire(t *testing.T) {
 	r := ev.Begin("C16", "wire")
 	defer r.End(t)
-	r.Rule = "histories = all sequences of <=K events over {solicitation from ::, unicast solicitation, link change (re-initialisation), transient failure of the next scheduled multicast RA, IPv6 forwarding of the interface flips off/on} x gap {0.1, 2.9, 3.1, 6 s}, injected into the real Advertiser (min=max=4s; deprecated prefix valid 20s / preferred 10s, deprecated route 15s, epoch = start of the virtual clock; one non-deprecated prefix; and the ::/64 wildcard listed first, which expands to the deprecated stanza's /64 too; and, for histories of <=2 events in the quick tier, the same interface with a static prefix in the wildcard's place: no wildcard at all) and followed by 8 quiet seconds; oracle on every RA handed to WriteTo: lifetimes = max(0, deadline - transmission time) exactly, never above the previous RA's, preferred<=valid, constants for the non-deprecated prefix; states = histories; non-trivial = history has >=1 event; distinct = distinct history"
+	r.Rule = "histories = all sequences of <=K events over {solicitation from ::, unicast solicitation, link change (re-initialisation), transient failure of the next scheduled multicast RA, IPv6 forwarding of the interface flips off/on} x gap {0.1, 2.9, 3.1, 6 s}, injected into the real Advertiser (min=max=4s; deprecated prefix valid 20s / preferred 10s, deprecated route 15s, epoch = start of the virtual clock; one non-deprecated prefix; and the ::/64 wildcard listed first, which expands to the deprecated stanza's /64 too; and, for histories of <=2 events in the quick tier, the same interface with a static prefix in the wildcard's place: no wildcard at all) and followed by 8 quiet seconds; plus 60 histories of 2-3 solicitations 0-19 ms apart (just after the start and just before each deadline) while every transmission stays in flight for 20 ms; oracle on every RA handed to WriteTo: lifetimes = max(0, deadline - transmission time) exactly, never above the previous RA's, preferred<=valid, constants for the non-deprecated prefix; states = histories; non-trivial = history has >=1 event; distinct = distinct history"
 	r.Assumptions = []string{"canonical goroutine schedule per history", "random delay draws at their default (0) answer"}
 	if r.Replay != nil {
 		var c c06Case
@@ -206,5 +206,34 @@ func TestVerifC16Wire(t *testing.T) {
 		}
 		return true
 	})
+	// Transmissions that take time (20 ms in flight each) while further answers become due:
+	// every RA still carries the time remaining at the instant IT is handed to the socket
+	// (an RA built while another one was in flight and sent later would be stale).
+	ms := time.Millisecond
+	for _, kinds := range [][]bool{{false, false}, {false, true}, {true, false}, {false, false, false}, {false, true, false}} {
+		for _, gap := range []time.Duration{0, ms, 5 * ms, 19 * ms} {
+			for _, first := range []time.Duration{100 * ms, 9990 * ms, 14990 * ms} {
+				idx++
+				if !r.Mine(idx) {
+					continue
+				}
+				c := c06Case{WriteTime: 20 * ms}
+				for i, m := range kinds {
+					g := gap
+					if i == 0 {
+						g = first
+					}
+					c.Events = append(c.Events, c06Event{Multicast: m, Gap: g})
+				}
+				steps, _, vs := c16WireRun(t, c)
+				r.Case(c.String(), true)
+				r.Count("states", 1)
+				r.Count("transitions", int64(steps))
+				for _, v := range vs {
+					r.Violation(v[0], "history "+c.String()+": "+v[1], c)
+				}
+			}
+		}
+	}
 	r.Max("max_depth", int64(K))
 }
